@@ -79,9 +79,16 @@ class Ctx:
 
     # ---- steps ----------------------------------------------------------------
     def translate(self):
-        p = subprocess.run(["/venv/bin/python", os.path.join(VERIF, "tools", "translate.py")],
-                           capture_output=True, text=True, timeout=300,
-                           env={**os.environ, "PYAB_SRC": os.path.join(REPO, "src")})
+        os.makedirs(LEAN_DIR, exist_ok=True)
+        lock = open(os.path.join(LEAN_DIR, ".build.lock"), "w")
+        fcntl.flock(lock, fcntl.LOCK_EX)          # the generated tables are shared with concurrent builds
+        try:
+            p = subprocess.run(["/venv/bin/python", os.path.join(VERIF, "tools", "translate.py")],
+                               capture_output=True, text=True, timeout=300,
+                               env={**os.environ, "PYAB_SRC": os.path.join(REPO, "src")})
+        finally:
+            fcntl.flock(lock, fcntl.LOCK_UN)
+            lock.close()
         if p.returncode != 0:
             # the translator could not even import / introspect the code: obligations over tables are broken
             self.obligation_breaks.append({"what": "translator", "detail": (p.stderr or p.stdout)[-1500:]})
